@@ -172,8 +172,9 @@ def verify(run, make_engine, tag_prefix="group", level_inv="helper", replay_for=
                 g, u = r.value
                 want = grouped_shape(E, ds, axis, G)
                 wshape = [zi(numel_of(ds)) / G, G] if axis == 0 else [G, zi(numel_of(ds)) / G]
+                # (numel / G groups of exactly G elements each: "one step per group of the requested size" - a property matter, not a layout choice)
                 run.add(f"{tag}/group-shape/path{pi}", r.hyps, z3.And(z3.BoolVal(len(g.shape) == 2), lib.shape_eq(g.shape, wshape) if len(g.shape) == 2 else z3.BoolVal(False)),
-                        "helper", inst, {"function": "group"})
+                        level_inv, inst, {"function": "group"}, replay=replay)
                 root, ops = layout.chain(u)
                 rest = layout.normalise(E, root.shape, ops, r.hyps)
                 ok = (root.attrs.get("input_fn") == "X") and not rest
